@@ -21,9 +21,10 @@
    nodes w < 2^109; a segment t that does not pass through the midpoint m is at distance >= 1 / (w_m |t|) > 2^-136 from m
    (a non-zero integer determinant divided by w_m |t|), or, when m lies on the line of t, at distance >= 1 / w_m from m;
    the displacement is eps |n| < 2^-K 2^27.  So K >= 164 suffices; K = 200 leaves a factor 2^36.
-   What is machine checked on every evaluated pair: `side_ok` — no side point lies on any linework or point of A or B
-   (its location in both geometries is decided by areas only: area interior, or exterior), so an open disc round it has the
-   same pair of locations and the dimension-2 claim it supports is true whatever K is. *)
+   What is machine checked on every evaluated pair: `side_ok` (OracleDefs) — no side point lies on any linework or point of A
+   or B (its location in both geometries is decided by areas only: area interior, or exterior), so an open disc round it has
+   the same pair of locations and the dimension-2 claim it supports is true whatever K is; and `eps_ok` — the path from the
+   sub-edge midpoint to the side point crosses no polygon ring segment, so the side point is in the adjacent face. *)
 From Coq Require Import ZArith List Bool.
 From GeosV.Lib Require Import GeomDefs LocateDefs ValidDefs.
 Import ListNotations.
@@ -100,6 +101,40 @@ Definition witnesses (A B : geom) : list (hpt * Z) :=
   let ns := nodes A B in
   let rs := ring_segs A ++ ring_segs B in
   map (fun q => (q, 0)) ns ++ flat_map (fun s => seg_witnesses ns (existsb (seg_eqb s) rs) s) (all_segs A B).
+
+(* ---- a per-instance certificate for eps ----
+   The straight path from the midpoint m of a ring sub-edge to its side point p must not meet any polygon ring segment t
+   (other than those through m, which are collinear with the sub-edge): then p lies in the face of the ring arrangement that
+   is adjacent to the sub-edge, which is all the oracle needs of eps.  Sufficient test, exact: m and p strictly on one side of
+   the line of t, or both ends of t strictly on one side of the line through m and p. *)
+Definition cross_n (a b : pt) (m : hpt) (c : pt) : Z :=
+  (- (snd b - snd a)) * (hw m * snd c - hy m) - (fst b - fst a) * (hw m * fst c - hx m).
+(* n . (c - m), times w_m : the position of c along the normal through m *)
+Definition dot_n (a b : pt) (m : hpt) (c : pt) : Z :=
+  (- (snd b - snd a)) * (hw m * fst c - hx m) + (fst b - fst a) * (hw m * snd c - hy m).
+Definition nn (a b : pt) : Z := (snd b - snd a) * (snd b - snd a) + (fst b - fst a) * (fst b - fst a).
+Definition same_strict (u v : Z) : bool := ((0 <? u) && (0 <? v)) || ((u <? 0) && (v <? 0)).
+(* t = cd does not meet the path from m to p = m + sg eps n, by one of four exact sufficient tests:
+   m and p strictly on one side of the line of t; c and d strictly on one side of the line through m and p;
+   c and d strictly behind m (n-coordinate of sign opposite to sg); c and d strictly beyond p (n-coordinate > eps |n|^2) *)
+Definition side_clear (rs : list seg) (sg : Z) (a b : pt) (m p : hpt) : bool :=
+  forallb (fun t => let c := fst t in let d := snd t in
+                    on_seg_h m c d
+                    || same_strict (qdet c d m) (qdet c d p)
+                    || same_strict (cross_n a b m c) (cross_n a b m d)
+                    || ((sg * dot_n a b m c <? 0) && (sg * dot_n a b m d <? 0))
+                    || ((hw m * nn a b <? EPS_DEN * (sg * dot_n a b m c)) && (hw m * nn a b <? EPS_DEN * (sg * dot_n a b m d)))) rs.
+Definition side_paths (A B : geom) : list (seg * Z * hpt * hpt) :=
+  let ns := nodes A B in
+  let rs := ring_segs A ++ ring_segs B in
+  flat_map (fun s => if existsb (seg_eqb s) rs then
+                       flat_map (fun pq => let m := midh (fst pq) (snd pq) in
+                                           [(s, 1, m, shift 1 (fst s) (snd s) m); (s, -1, m, shift (-1) (fst s) (snd s) m)])
+                                (sub_edges (fst s) (snd s) (filter (fun q => on_seg_h q (fst s) (snd s)) ns))
+                     else []) (all_segs A B).
+Definition eps_ok (A B : geom) : bool :=
+  let rs := filter (fun t => negb (pt_eqb (fst t) (snd t))) (ring_segs A ++ ring_segs B) in
+  forallb (fun x => let '(s, sg, m, p) := x in side_clear rs sg (fst s) (snd s) m p) (side_paths A B).
 
 (* ---- locating a rational point: the specification ---- *)
 (* Lib/LocateDefs.loc_dim on the geometry scaled by w (LocateDefs.loc_h is this for the mod-2 rule) *)
